@@ -26,6 +26,7 @@ OPS = ['Create', 'CreateKeyPair', 'Register', 'DeriveKey', 'Locate', 'Get',
 STATES = ['PreActive', 'Active', 'Deactivated', 'Compromised']
 NPARAM = 6
 ATTR_SWEEP = 3 * 7 * 6     # operation x object type x version
+PARAM_SWEEP = 4 * 3        # parameter family x version
 GRID = len(OPS) * len(gen.OTYPES) * len(STATES) * len(gen.VERSIONS) * NPARAM
 COUNT = {'quick': 5200, 'thorough': GRID + 30000}
 SWEEP = {'quick': 4200, 'thorough': GRID}
@@ -495,6 +496,82 @@ def generate(rng, tier, index):
                       'probe': True})
         return {'actors': [{'cn': 'owner'}], 'seed': r.randrange(1 << 30),
                 'steps': steps, 'cell': [name, otype, state, list(ver), p]}
+    if SWEEP[tier] + ATTR_SWEEP <= index < SWEEP[tier] + ATTR_SWEEP + \
+            PARAM_SWEEP:
+        # the enumerations of the cryptographic parameters, complete, on a
+        # usable (Active, fully masked) object of the right kind
+        j = index - SWEEP[tier] - ATTR_SWEEP
+        ver = [(1, 2), (1, 4), (2, 0)][j % 3]
+        kind = j // 3
+        ctx = gen.Ctx(r, nactors=1)
+        probes_ = []
+        if kind == 0:
+            otype = 'PrivateKey'
+            for d in range(1, 20):
+                probes_.append({'op': 'Sign', 'uid': '@x', 'data': '0a0b',
+                                'cp': {'dsa': d}})
+            for h in range(1, 18):
+                for pad in (8, 10, 1, 3):
+                    probes_.append({'op': 'Sign', 'uid': '@x',
+                                    'data': '0a0b', 'cp': {
+                                        'alg': 4, 'hash': h,
+                                        'padding': pad}})
+        elif kind == 1:
+            otype = 'PublicKey'
+            for d in range(1, 20):
+                probes_.append({'op': 'SignatureVerify', 'uid': '@x',
+                                'data': '0a0b', 'sig': '11' * 128,
+                                'cp': {'dsa': d}})
+            for h in range(1, 18):
+                for pad in (8, 10):
+                    probes_.append({'op': 'SignatureVerify', 'uid': '@x',
+                                    'data': '0a0b', 'sig': '11' * 128,
+                                    'cp': {'alg': 4, 'hash': h,
+                                           'padding': pad}})
+        elif kind == 2:
+            otype = 'SymmetricKey'
+            for name in ('Encrypt', 'Decrypt'):
+                for mode in range(1, 19):
+                    for pad in (None, 3):
+                        cp = {'alg': 3, 'mode': mode}
+                        if pad:
+                            cp['padding'] = pad
+                        probes_.append({'op': name, 'uid': '@x',
+                                        'data': '00' * 16, 'cp': cp,
+                                        'iv': '01' * r.choice([16, 12])})
+                for pad in range(1, 11):
+                    probes_.append({'op': name, 'uid': '@x',
+                                    'data': '00' * 16, 'iv': '01' * 16,
+                                    'cp': {'alg': 3, 'mode': 1,
+                                           'padding': pad}})
+        else:
+            otype = 'SymmetricKey'
+            for alg in range(1, 57):
+                probes_.append({'op': 'MAC', 'uid': '@x', 'data': '0a0b',
+                                'cp': {'alg': alg}})
+            for alg in (1, 2, 3, 0x10, 0x11, 0x12, 0x13, 0x16):
+                probes_.append({'op': 'Encrypt', 'uid': '@x',
+                                'data': '00' * 16, 'iv': '01' * 16,
+                                'cp': {'alg': alg, 'mode': 1, 'padding': 3}})
+            for m in range(1, 9):
+                for h in (4, 6, None):
+                    cp = {'hash': h} if h else {}
+                    probes_.append({'op': 'DeriveKey',
+                                    'otype': 'SymmetricKey', 'uids': ['@x'],
+                                    'method': m, 'params': {
+                                        'cp': cp, 'data': 'aabb',
+                                        'salt': 'ccdd', 'iter': 2},
+                                    'attrs': [
+                                        A('Cryptographic Length', 128),
+                                        A('Cryptographic Algorithm', 3),
+                                        A('Cryptographic Usage Mask', 12)]})
+        steps = setup_steps(otype, 'Active', r, ctx)
+        for op in probes_:
+            steps.append({'actor': 0, 'ver': list(ver), 'items': [op],
+                          'probe': True})
+        return {'actors': [{'cn': 'owner'}], 'seed': r.randrange(1 << 30),
+                'steps': steps, 'cell': None,
+                'attr_sweep': ['crypto-parameters', otype, list(ver)]}
     if index < SWEEP[tier] + ATTR_SWEEP:
         # the attribute table, complete: every attribute name the request
         # language can encode x {Set, Modify, Delete} x object type x
